@@ -282,6 +282,8 @@ def goodbye(ctx: Any) -> List[Ob]:
 
 
 def _cancel_sites(ctx: Any, attr: str, cls_full: str) -> List[Tuple[FuncInfo, ast.Call]]:
+    from .common import expand as _xp_cs
+
     out = []
     c = ctx.prog.cls(cls_full)
     fam = [c] + c.all_subclasses()
@@ -290,7 +292,8 @@ def _cancel_sites(ctx: Any, attr: str, cls_full: str) -> List[Tuple[FuncInfo, as
             me = f.params[0] if f.params else 'self'
             for n in walk_local_ordered(f.node):
                 if isinstance(n, ast.Call) and call_name(n) == 'cancel' and isinstance(n.func, ast.Attribute):
-                    if any(self_attr(x, me) == attr for x in ast.walk(n.func.value)):
+                    # on the attribute itself, or on a local that names it (`timer = self._cleanup_timer; timer.cancel()`)
+                    if any(self_attr(x, me) == attr for x in ast.walk(_xp_cs(f, n.func.value))):
                         out.append((f, n))
     return out
 
@@ -519,12 +522,21 @@ def listener(ctx: Any) -> List[Ob]:
             raise AnalysisError(f'anchor vanished: the asyncio routine that calls {callee}')
         fcfg = cfg_of(fm.node)
         hits = [n for n in fcfg.nodes if any(call_name(x) == callee for e in n.exprs() for x in ast.walk(e) if isinstance(x, ast.Call))]
+        # (a call made once per element in the body of a loop that has no way round it is made for every element: the loop
+        # head stands for it -- zero trips means there was nothing to remove)
+        for lp_ in [n for n in fcfg.nodes if n.kind == 'for']:
+            inner = [h_ for h_ in hits if h_.in_loop and any(l_ is lp_.ast for l_ in h_.in_loop)]
+            if inner and not any(isinstance(x, (ast.If, ast.Continue, ast.Break, ast.Try)) for x in ast.walk(lp_.ast)):
+                hits.append(lp_)
         byp_c = fcfg.must_pass_before_exit(fcfg.entry, lambda n: n in hits) if hits else [fcfg.entry]
         obs.append(ob(R, fm, hits[0].ast if hits else callee, f'{what} (on every path)', bool(hits) and byp_c is None))
     from .common import expand as _xp_st  # noqa: F811
 
     ra_ = az.methods.get('async_remove_all_service_listeners')
     whole_ = ra_ is not None and any(isinstance(g_, ast.comprehension) and not g_.ifs and any(self_attr(x, ra_.params[0]) == 'async_browsers' for x in ast.walk(_xp_st(ra_, g_.iter))) for g_ in ast.walk(ra_.node))
+    # ... or a plain loop over that snapshot, with nothing in its body that skips an element
+    whole_ = whole_ or (ra_ is not None and any(isinstance(l_, ast.For) and any(self_attr(x, ra_.params[0]) == 'async_browsers' for x in ast.walk(_xp_st(ra_, l_.iter))) and isinstance(_xp_st(ra_, l_.iter), ast.Call)
+                                                and not any(isinstance(x, (ast.If, ast.Continue, ast.Break)) for x in ast.walk(l_)) for l_ in ast.walk(ra_.node)))
     obs.append(ob(R, ra_, 'for listener in list(self.async_browsers)', 'every browser still registered is visited (a snapshot of all keys, no filter)', bool(whole_)))
     rs_ = az.methods.get('async_remove_service_listener')
     if rs_ is None:
